@@ -129,6 +129,15 @@ def check(run: Run, prog: Program, model: Model, tier: str) -> None:
             if st is not None and st.hook:
                 rows, _ = extract(prog, model, "Validator", st.hook, Config(()))
                 labels = {str(r.term.args[1]) for r in rows if r.error == "TypeValidationError" and isinstance(r.term, Term) and r.term.op == "isinstance"}
+                if kind == "float" and "value" in st.props:
+                    from .c02 import loose_isclose
+                    vr, _ = extract(prog, model, "Validator", st.hook, Config(("value",)))
+                    for r in vr:
+                        why = loose_isclose(r.term) if r.error == "ValueValidationError" else None
+                        if why:
+                            probs.append(f"validator of {v.cls.name} compares the pinned float with a widened tolerance ({why}): "
+                                         "values differing from it are accepted")
+                            break
                 if kind not in ("float", "NoneType", "list", "dict") and "value" in st.props:
                     vr, _ = extract(prog, model, "Validator", st.hook, Config(("value",)))
                     vrows = [r for r in vr if r.error == "ValueValidationError"]
@@ -279,10 +288,18 @@ def _refuses_plain(run: Run, prog: Program, fn: Any, results: Dict[str, List[Pat
                 conds = [("" if b else "not ") + k for k, _, b in p.facts]
                 if any(any(m in c for m in ok_markers) for c in conds):
                     continue
-                inst = [(t, b) for _, t, b in p.facts if isinstance(t, Term) and t.op == "isinstance" and "|" not in str(t.args[1])]
-                if inst and inst[-1][1] is False:
-                    continue        # fell off the end of the ladder: a member of a non-plain kind
-                if inst and str(inst[-1][0].args[1]) not in plain_kinds and kind not in ("list", "dict"):
+                inst = [(t, b) for _, t, b in p.facts if isinstance(t, Term) and t.op == "isinstance"
+                        and not any(m in str(t.args[1]) for m in ("optional", "ellipsis"))]
+                # the last kind test that SUCCEEDED on this path tells what the refused (member) value is
+                pos = [t for t, b in inst if b]
+                if inst and inst[-1][1] is False and not (pos and inst.index((pos[-1], True)) == len(inst) - 1):
+                    if not pos or any(alt not in plain_kinds for alt in str(pos[-1].args[1]).split("|")):
+                        continue    # fell off the end of the ladder: a member of a non-plain kind
+                    # a plain kind was established for the refused value after which no arm fired
+                    last_pos_at = max(i for i, (t, b) in enumerate(inst) if b)
+                    if any(not b for _, b in inst[last_pos_at + 1:]) and str(inst[-1][0].args[0].key()) != str(pos[-1].args[0].key()):
+                        continue    # the later negative tests concern another value
+                if pos and any(alt not in plain_kinds for alt in str(pos[-1].args[1]).split("|")) and kind not in ("list", "dict"):
                     continue
                 odd.append(", ".join(c for c in conds if not c.startswith(("isinstance(value", "not isinstance(value")))[:160] or "unconditionally")
         c = f"from_native(<{kind}>): refusal"
